@@ -48,6 +48,25 @@ def task(item):
         if not (lam > LAMBDA_MIN) or np.any(np.diag(A) <= 0):
             out['viols'].append(('not-positive-definite', {'cfg': cfgname, 'history': h, 'uniform': uniform, 'pw_exact': sw, 'lambda_min': lam, 'N': len(elems)}))
         if len(elems) <= 40 or sw is False:
+            blocks = {}
+            for rep in (0, 1):
+                # second pass: NEW virtual children (the first ones have been freed) on the same operator must give the
+                # same blocks bit for bit - an operator must not remember transient elements
+                for e, children in zip(elems, DummyElement.uniform_refinement(elems)):
+                    if any(universe.aspect(c) > ASPECT for c in children):
+                        continue
+                    S4r = SL.bilform_matrix(children, children)
+                    if rep == 0:
+                        blocks[id(e)] = S4r
+                    elif not np.array_equal(S4r, blocks[id(e)]):
+                        out['viols'].append(('operator-history-child-block', {'cfg': cfgname, 'history': h, 'uniform': uniform, 'pw_exact': sw,
+                                                                              'elem': [e.time_interval, e.space_interval]}))
+                        break
+            A2 = SL.bilform_matrix(elems, elems)
+            Afresh = SingleLayerOperator(m, pw_exact=sw).bilform_matrix(elems, elems)
+            if not (np.array_equal(A2, A) and np.array_equal(Afresh, A)):
+                out['viols'].append(('operator-history-matrix', {'cfg': cfgname, 'history': h, 'uniform': uniform, 'pw_exact': sw,
+                                                                 'detail': 're-assembly after serving the child blocks, or assembly by a fresh operator, differs'}))
             for e, children in zip(elems, DummyElement.uniform_refinement(elems)):
                 if any(universe.aspect(c) > ASPECT for c in children):
                     continue
